@@ -76,6 +76,10 @@ fn main() {
         }
         return;
     }
+    if args.first().map(String::as_str) == Some("--run-app-outline") {
+        print!("{}", trippy_verif::tui_loop::outline());
+        return;
+    }
     if args.first().map(String::as_str) == Some("--frame") {
         // vcheck --frame <TUI replay file>: print the last frame of a C17/C18 case
         let v: serde_json::Value = serde_json::from_str(&std::fs::read_to_string(&args[1]).expect("read")).expect("json");
